@@ -35,7 +35,10 @@ Normalize(argv) ==
            LET p == FirstOther(a, 2) IN
            IF p > Len(a) THEN Shorts(a, 2, p) \o Normalize(rest)
            ELSE IF Ch(a, p) # "v" THEN <<"?">> \o Normalize(rest)
-           ELSE IF p < Len(a) THEN Shorts(a, 2, p) \o <<"-v", SubSeq(a, p + 1, Len(a))>> \o Normalize(rest)     \* value attached
+           \* value attached; argparse reads "-v=VALUE" as VALUE, and what it does with "=" after v inside a cluster has changed between
+           \* interpreter versions: the lone option strips one "=", a cluster followed by "=" is left out
+           ELSE IF p < Len(a) /\ Ch(a, p + 1) = "=" THEN (IF p = 2 THEN <<"-v", SubSeq(a, p + 2, Len(a))>> \o Normalize(rest) ELSE <<"?">> \o Normalize(rest))
+           ELSE IF p < Len(a) THEN Shorts(a, 2, p) \o <<"-v", SubSeq(a, p + 1, Len(a))>> \o Normalize(rest)
            ELSE IF rest = <<>> THEN <<"?">>
            ELSE Shorts(a, 2, p) \o <<"-v", rest[1]>> \o Normalize(Tail(rest))
         ELSE <<"?">> \o Normalize(rest)
